@@ -22,4 +22,4 @@ def generate(run_seed, tier):
     r = core.rng(run_seed, "curveset")
     names = even_toys() if r.random() < 0.12 else odd_toys()
     return hist.gen_program("C06", run_seed, tier, names, named_small(),
-                            (5, 40))
+                            (5, 40 if tier == "quick" else 80))
